@@ -134,18 +134,21 @@ def _work_rand(args):
         for tid, seed in items:
             rng = np.random.default_rng(seed)
             ev = []
+            axbuf = np.zeros(3)       # one axis buffer refilled in place: results depend on its contents, not its identity
             for _ in range(6):
                 axis = rng.normal(size=3)
                 axis *= 10 ** rng.uniform(-6, 6) / np.linalg.norm(axis)
                 if rng.random() < 0.2:
                     axis = np.eye(3)[rng.integers(0, 3)] * 10 ** rng.uniform(-6, 6) * rng.choice([-1, 1])
                 theta = float(rng.choice([rng.uniform(-20, 20), 0.0, math.pi, -math.pi / 2, 2 * math.pi]))
+                axbuf[...] = axis
+                axis = axbuf
                 try:
                     rel = rot_relations(rotation_matrix, axis, theta, rng)
                 except Exception as exc:
                     rel = dict(finite=False, orth=False, det=False, axis_fixed=False, trace=False, transpose=False,
                                compose=False, scale_indep=False, exc=type(exc).__name__)
-                rel.update(op='rot', axis=axis.tolist(), theta=theta)
+                rel.update(op='rot', axis=[float(x) for x in axis], theta=theta)
                 ev.append(rel)
             for _ in range(6):
                 sc = 10 ** rng.uniform(-3, 3)
